@@ -79,6 +79,30 @@ func (t *tracer) emit(e ev) {
 type prov struct {
 	*vh.MemProvider
 	gate atomic.Pointer[func(id string)]
+	// storage error at LOAD time (class "storage" of unloadable records): while a session is being opened GetStorage
+	// fails for these ids, so the record stays in the database without a torrent
+	mu       sync.Mutex
+	loading  bool
+	failLoad map[string]bool
+}
+
+func (p *prov) setLoading(v bool) {
+	p.mu.Lock()
+	p.loading = v
+	p.mu.Unlock()
+}
+
+func (p *prov) setFailLoad(id string, v bool) {
+	p.mu.Lock()
+	if p.failLoad == nil {
+		p.failLoad = map[string]bool{}
+	}
+	if v {
+		p.failLoad[id] = true
+	} else {
+		delete(p.failLoad, id)
+	}
+	p.mu.Unlock()
 }
 
 var errStorage = errors.New("verif: injected storage error")
@@ -88,6 +112,12 @@ func (p *prov) GetStorage(id string) (storage.Storage, error) {
 		(*g)(id)
 	}
 	if id == "z" {
+		return nil, errStorage
+	}
+	p.mu.Lock()
+	fail := p.loading && p.failLoad[id]
+	p.mu.Unlock()
+	if fail {
 		return nil, errStorage
 	}
 	return p.MemProvider.GetStorage(id)
@@ -164,6 +194,7 @@ type env struct {
 	mu     sync.Mutex
 	known  []string       // ids returned by successful adds, in creation order (scenario choices must not depend on generated ids)
 	fresh  map[int]string // ids added by the callers of the current burst round, by caller
+	added  map[string]*meta // torrent of the last successful add per id (the harness's own bookkeeping for planting leftovers)
 	dead   bool // the trace is abandoned: the session panicked inside Close, or the environment failed
 	closed bool // Close was attempted (it must not be called twice)
 	loops0 int  // torrent loops alive in this process when the trace began (leaked by an earlier trace: not this trace's fault)
@@ -201,7 +232,8 @@ func newEnv(T *tracer, rng *rand.Rand, pool []*meta, nports int, useRPC bool) *e
 	}
 	cfg.ResumeWriteInterval = time.Hour // the resume database is written by the calls and by Close only
 	cfg.ResumeOnStartup = true
-	e := &env{T: T, rng: rng, dir: dir, cfg: cfg, base: int(cfg.PortBegin), nports: nports, pool: pool, useRPC: useRPC}
+	cfg.MaxPieces = maxPiecesCfg
+	e := &env{T: T, rng: rng, dir: dir, cfg: cfg, base: int(cfg.PortBegin), nports: nports, pool: pool, useRPC: useRPC, added: map[string]*meta{}}
 	vt, _ := vh.NewTracer("")
 	e.prov = &prov{MemProvider: vh.NewMemProvider(vt)}
 	e.prov.Quiet = true
@@ -216,7 +248,9 @@ func newEnv(T *tracer, rng *rand.Rand, pool []*meta, nports int, useRPC bool) *e
 }
 
 func (e *env) open() error {
+	e.prov.setLoading(true)
 	s, err := torrent.NewSession(e.cfg)
+	e.prov.setLoading(false)
 	if err != nil {
 		return err
 	}
@@ -271,6 +305,7 @@ func decodeDB(e *env, id string, b map[string][]byte) ev {
 	r["sad"], r["sam"], r["sq"] = pb("stop_after_download"), pb("stop_after_metadata"), pb("sequential")
 	r["started"] = pb("started")
 	r["meta"] = len(b["info"]) > 0
+	r["bf"] = hex.EncodeToString(b["bitfield"])
 	at := "!undecodable"
 	if t, err := time.Parse(time.RFC3339, string(b["added_at"])); err == nil {
 		at = strconv.FormatInt(t.Unix(), 10)
@@ -461,7 +496,9 @@ func (e *env) callAdd(g int, a addSpec) {
 	}
 	e.T.emit(ev{"op": "ret", "g": g, "res": res, "id": id, "port": port, "at": at})
 	if res == "ok" {
+		e.prov.setFailLoad(id, false) // the record was rewritten: it loads again
 		e.mu.Lock()
+		e.added[id] = a.m
 		if e.fresh != nil {
 			e.fresh[g] = id
 		} else {
@@ -681,8 +718,11 @@ func (e *env) callCompact(g int) {
 }
 
 // callReopen closes the session, optionally damages records of the closed database, and opens a new session on it.
-func (e *env) callReopen(g int, corrupt []string) {
-	e.T.emit(ev{"op": "call", "g": g, "name": "Reopen", "id": "", "corrupt": strs(corrupt), "rpc": false})
+func (e *env) callReopen(g int, corrupt []string, classes ...string) {
+	for len(classes) < len(corrupt) { // the two classes of the first version of this driver
+		classes = append(classes, []string{"ihash", "port"}[len(corrupt[len(classes)])%2])
+	}
+	e.T.emit(ev{"op": "call", "g": g, "name": "Reopen", "id": "", "corrupt": strs(corrupt), "cclass": strs(classes), "rpc": false})
 	res := "ok"
 	func() {
 		defer func() {
@@ -706,7 +746,7 @@ func (e *env) callReopen(g int, corrupt []string) {
 	}()
 	if res == "ok" {
 		if len(corrupt) > 0 {
-			if err := corruptDB(e.cfg.Database, corrupt); err != nil {
+			if err := corruptDB(e, corrupt, classes); err != nil {
 				panic(err)
 			}
 		}
@@ -822,7 +862,11 @@ func (e *env) randOp(g int, concurrent bool) func() {
 			}
 			sort.Strings(corrupt)
 		}
-		return func() { e.callReopen(g, corrupt) }
+		classes := make([]string, len(corrupt))
+		for i := range classes {
+			classes[i] = leftoverClasses[e.rng.Intn(len(leftoverClasses))]
+		}
+		return func() { e.callReopen(g, corrupt, classes...) }
 	}
 }
 
@@ -941,9 +985,14 @@ func burstTrace(T *tracer, pool []*meta, seed int64, idx, k, rounds int, sameID 
 // probeTrace: deterministic scenarios for the leads of DESIGN.md section 7.
 func probeTrace(T *tracer, pool []*meta, seed int64, idx int) {
 	rng := rand.New(rand.NewSource(seed*9000011 + int64(idx)))
-	names := []string{"compact-neverstarted", "compact-thissession", "compact-loaded", "stale-addtracker", "rpc-clean", "restart-full", "clean-after-readd", "failpoints"}
+	names := []string{"compact-neverstarted", "compact-thissession", "compact-loaded", "stale-addtracker", "rpc-clean", "restart-full", "clean-after-readd", "failpoints",
+		"readd-over-leftover-0", "readd-over-leftover-1", "readd-over-leftover-2", "readd-over-leftover-3"}
 	name := names[idx%len(names)]
-	e := newEnv(T, rng, pool, 4, name == "rpc-clean")
+	nports := 4
+	if strings.HasPrefix(name, "readd-over-leftover") {
+		nports = 7
+	}
+	e := newEnv(T, rng, pool, nports, name == "rpc-clean")
 	defer e.cleanup()
 	e.init("probe:"+name, idx)
 	if err := e.open(); err != nil {
@@ -951,6 +1000,8 @@ func probeTrace(T *tracer, pool []*meta, seed int64, idx int) {
 	}
 	e.obs()
 	switch name {
+	case "readd-over-leftover-0", "readd-over-leftover-1", "readd-over-leftover-2", "readd-over-leftover-3":
+		leftoverProbe(e, int(name[len(name)-1]-'0'))
 	case "compact-neverstarted":
 		e.callAdd(1, addSpec{m: pool[0], kind: "torrent", stopped: true})
 		e.obs()
@@ -1135,6 +1186,8 @@ func child(mode string, seed int64, from, to, nops, k int, out string) {
 			probeTrace(T, pool, seed, i)
 		case "race":
 			raceTrace(T, pool, seed, i)
+		case "race-add":
+			raceAddTrace(T, pool, seed, i)
 		default:
 			panic("unknown mode " + mode)
 		}
